@@ -539,6 +539,122 @@ class HandlerTranslator(ConnTranslator):
         return text
 
 
+def translate_command_step(tree, handlers, params_of):
+    """`Connection.command_phase`: the dispatch and the exception arms of ONE iteration of the command loop, as Lean text.
+
+    The method must still have the shape this function reads off its AST (anything else is an extraction error):
+    `while True:` / `try: data = await self.stream.read() except ConnectionClosed: return` / `self._executing = True` /
+    `try:` command = data[0]; rest = data[1:]; an if / elif chain on `command == types.Commands.X` whose branches are
+    `await self.handle_Y(rest)`, `return`, or (the final else) `raise MysqlError(...)` / `except MysqlError`, `except Exception`:
+    the same statements up to the arguments of `self.error(...)`: `self._executing = False`, one `await
+    self.stream.write(self.error(...))` / `except AuthenticationFailed: return` / `except asyncio.CancelledError:` (kills: the
+    connection machine's subject, not translated) / `finally: self._executing = False; self.stream.reset_seq()`.
+
+    Translated handlers are called; the others (`handle_change_user`, `handle_init_db`, `handle_field_list`) are the parameter
+    `other_handler : Nat → Connection S → Bytes → Except (Connection S) (Connection S)`.  The ERR packet an arm writes is the
+    parameter `error_packet` (its code and message are C03's byte-level subject)."""
+    from mysql_mimic.types import Commands
+    cls = next(n for n in tree.body if isinstance(n, ast.ClassDef) and n.name == "Connection")
+    f = next(n for n in cls.body if isinstance(n, ast.AsyncFunctionDef) and n.name == "command_phase")
+    body = [st for st in f.body if not (isinstance(st, ast.Expr) and isinstance(st.value, ast.Constant))]
+    bad = Untranslatable("command_phase no longer has the shape the command-step translation reads")
+    if len(body) != 1 or not isinstance(body[0], ast.While) or ast.unparse(body[0].test) != "True":
+        raise bad
+    loop = body[0].body
+    if len(loop) != 3 or not isinstance(loop[0], ast.Try) or ast.unparse(loop[1]) != "self._executing = True" or not isinstance(loop[2], ast.Try):
+        raise bad
+    rd = loop[0]
+    if [ast.unparse(x) for x in rd.body] != ["data = await self.stream.read()"] or len(rd.handlers) != 1 \
+            or ast.unparse(rd.handlers[0].type) != "ConnectionClosed" or not isinstance(rd.handlers[0].body[-1], ast.Return):
+        raise bad
+    tr = loop[2]
+    tb = tr.body
+    if len(tb) != 3 or ast.unparse(tb[0]) != "command = data[0]" or ast.unparse(tb[1]) != "rest = data[1:]" or not isinstance(tb[2], ast.If):
+        raise bad
+    chain = []
+    node = tb[2]
+    while True:
+        t = node.test
+        if not (isinstance(t, ast.Compare) and ast.unparse(t.left) == "command" and len(t.ops) == 1 and isinstance(t.ops[0], ast.Eq)
+                and ast.unparse(t.comparators[0]).startswith("types.Commands.")):
+            raise bad
+        code = int(getattr(Commands, ast.unparse(t.comparators[0]).split(".")[-1]))
+        if len(node.body) != 1:
+            raise bad
+        b = node.body[0]
+        if isinstance(b, ast.Return) and b.value is None:
+            chain.append((code, "return", None))
+        elif isinstance(b, ast.Expr) and isinstance(b.value, ast.Await) and isinstance(b.value.value, ast.Call) \
+                and ast.unparse(b.value.value.func).startswith("self.handle_") and [ast.unparse(a) for a in b.value.value.args] == ["rest"]:
+            chain.append((code, "call", ast.unparse(b.value.value.func)[5:]))
+        else:
+            raise bad
+        if len(node.orelse) == 1 and isinstance(node.orelse[0], ast.If):
+            node = node.orelse[0]
+            continue
+        if len(node.orelse) != 1 or not isinstance(node.orelse[0], ast.Raise) or not ast.unparse(node.orelse[0].exc).startswith("MysqlError("):
+            raise bad
+        break
+    # the exception arms
+    arms = {ast.unparse(h.type): h for h in tr.handlers}
+    if set(arms) != {"MysqlError", "AuthenticationFailed", "asyncio.CancelledError", "Exception"}:
+        raise bad
+
+    def arm_shape(h):
+        out = []
+        for st in h.body:
+            if isinstance(st, ast.Expr) and isinstance(st.value, ast.Call) and ast.unparse(st.value.func).startswith("logger."):
+                continue
+            if isinstance(st, ast.Expr) and isinstance(st.value, ast.Await) and isinstance(st.value.value, ast.Call) \
+                    and ast.unparse(st.value.value.func) == "self.stream.write" and len(st.value.value.args) == 1 and not st.value.value.keywords \
+                    and isinstance(st.value.value.args[0], ast.Call) and ast.unparse(st.value.value.args[0].func) == "self.error":
+                out.append("write-error")
+            else:
+                out.append(ast.unparse(st))
+        return out
+    if arm_shape(arms["MysqlError"]) != ["self._executing = False", "write-error"] or arm_shape(arms["Exception"]) != ["self._executing = False", "write-error"]:
+        raise bad
+    if [ast.unparse(x) for x in arms["AuthenticationFailed"].body if not isinstance(x, ast.Expr) or not isinstance(x.value, ast.Constant)] != ["return"]:
+        raise bad
+    if [ast.unparse(x) for x in tr.finalbody] != ["self._executing = False", "self.stream.reset_seq()"]:
+        raise bad
+    # Lean text
+    lines = ["/-- the dispatch of `command_phase`: `none` = `return` (COM_QUIT); an unsupported command byte raises -/"]
+    extra = "".join(" (%s : %s)" % (pn, pt) for pn, pt in params_of["__all__"])
+    lines.append("def dispatch%s (other_handler : Nat → Connection S → Bytes → Except (Connection S) (Connection S)) (self : (Connection S)) (command : Nat) (rest : Bytes) : Except (Connection S) (Option (Connection S)) :=" % extra)
+    ind_ = "  "
+    for code, kind, h in chain:
+        if kind == "return":
+            lines.append(ind_ + "if command == %d then Except.ok none else" % code)
+        elif h in handlers:
+            lines.append(ind_ + "if command == %d then (%s self rest).map some else" % (code, handlers[h]))
+        else:
+            lines.append(ind_ + "if command == %d then (other_handler %d self rest).map some else   -- %s: not translated" % (code, code, h))
+    lines.append(ind_ + "Except.error self")
+    lines.append("")
+    lines.append("/-- the codes `command_phase` dispatches, in the order of its if / elif chain -/")
+    lines.append("def dispatched : List Nat := [%s]" % ", ".join(str(c) for c, _, _ in chain))
+    lines.append("")
+    lines.append("/-- **one iteration of the command loop after a packet was read** (kills excluded): mark executing, dispatch, on an\n"
+                 "    exception write exactly one ERR, in every case clear the flag and reset the sequence; `true`: the loop goes on -/")
+    lines.append("def command_step%s (other_handler : Nat → Connection S → Bytes → Except (Connection S) (Connection S)) (error_packet : Connection S → Bytes) (self : (Connection S)) (data : Bytes) : (Connection S) × Bool :=" % extra)
+    lines.append("  let self := { self with _executing := true }")
+    lines.append("  let fin := fun (s : Connection S) => { s with _executing := false, out := s.out ++ [Ev.reset_seq] }")
+    lines.append("  match data with")
+    lines.append("  | [] =>      -- `data[0]` on an empty payload: IndexError, the `except Exception` arm")
+    lines.append("    let s := { self with _executing := false }")
+    lines.append("    (fin { s with out := s.out ++ [Ev.write (error_packet s) true] }, true)")
+    lines.append("  | command :: rest =>")
+    allp = " ".join(pn for pn, _ in params_of["__all__"])
+    lines.append("    match dispatch %s other_handler self command.toNat rest with" % allp)
+    lines.append("    | .ok (some s) => (fin s, true)")
+    lines.append("    | .ok none => (fin self, false)")
+    lines.append("    | .error s =>")
+    lines.append("      let s := { s with _executing := false }")
+    lines.append("      (fin { s with out := s.out ++ [Ev.write (error_packet s) true] }, true)")
+    return "\n".join(lines) + "\n"
+
+
 def py_sig(module, fname, lean, types=None):
     """Fn of an already translated module-level function, parameters and defaults read from the Python source"""
     types = types or {}
@@ -568,7 +684,7 @@ def translate_handlers():
         # subject); here they are read like fields
         "Connection": [("capabilities", NAT, None), ("status_flags", NAT, None), ("prepared_stmts", T_dict(NAT, T_rec("PreparedStatement")), None),
                        ("out", ("abs", "(List Ev)"), None), ("prepared_stmt_seq", T_rec("seq"), None), ("client_charset", CS, None),
-                       ("server_charset", CS, None)],
+                       ("server_charset", CS, None), ("_executing", BOOL, None)],
         # COM_STMT_EXECUTE as the handler uses it: the statement object, the interpolated text, the cursor flag (the
         # attributes only travel to the application)
         "ComStmtExecute": [("sql", STR, None), ("stmt", T_rec("PreparedStatement"), None), ("use_cursor", BOOL, None)],
@@ -590,7 +706,7 @@ def translate_handlers():
            "open Mimic.Py", "open Mimic.Extracted.ParsersCode (ComStmtSendLongData ComStmtFetch ComStmtReset ComStmtClose ComQuery)", "",
            "variable {S : Type} [DecidableEq S]", "",
            "/-- what a handler does to the outside, in the order it does it -/",
-           "inductive Ev\n  | write (pkt : Bytes) (drain : Bool)\n  | drain\n  | session_reset\nderiving DecidableEq, Repr\n"]
+           "inductive Ev\n  | write (pkt : Bytes) (drain : Bool)\n  | drain\n  | session_reset\n  | reset_seq\nderiving DecidableEq, Repr\n"]
     from mysql_mimic import utils as U
     csrc = inspect.getsource(Cn.Connection)
     for prop in ("client_charset", "server_charset"):
@@ -649,10 +765,23 @@ def translate_handlers():
                    ("handle_reset_connection", "handle_reset_connection"), ("handle_debug", "handle_debug"), ("handle_stmt_fetch", "handle_stmt_fetch"), ("handle_stmt_reset", "handle_stmt_reset"), ("handle_stmt_close", "handle_stmt_close"),
                    ("handle_stmt_send_long_data", "handle_stmt_send_long_data")):
         out.append(h.handler("Connection." + nm, ln))
+    # the command loop's iteration over the translated handlers
+    import re as _re
+    handler_calls, allparams = {}, []
+    for txt in out:
+        for m in _re.finditer(r"^def (handle_\w+)((?: \([^()]*(?:\([^()]*\)[^()]*)*\))*) : Except \(Connection S\) \(Connection S\) :=", txt, _re.M):
+            names = _re.findall(r"\((\w+) :", m.group(2))
+            ps = [n for n in names if n not in ("self", "data")]
+            handler_calls[m.group(1)] = "%s %s" % (m.group(1), " ".join(ps)) if ps else m.group(1)
+            for n in ps:
+                if n not in [a for a, _ in allparams]:
+                    ty = "Env S" if n == "E" else dict(pure.extra_params)[n]
+                    allparams.append((n, ty))
+    out.append(translate_command_step(pure.tree, handler_calls, {"__all__": allparams}))
     out.append("def translated : List String := [%s]" % ", ".join('"%s"' % n for n in (
         "Connection.ok", "Connection.eof", "Connection.deprecate_eof", "Connection.ok_or_eof", "Connection.get_stmt",
         "Connection.com_stmt_prepare_response", "Connection.handle_stmt_prepare", "Connection.handle_stmt_execute", "Connection.handle_query", "Connection.text_resultset", "Connection.handle_ping",
-        "Connection.handle_reset_connection", "Connection.handle_debug", "Connection.handle_stmt_fetch", "Connection.handle_stmt_reset", "Connection.handle_stmt_close", "Connection.handle_stmt_send_long_data")))
+        "Connection.handle_reset_connection", "Connection.handle_debug", "Connection.handle_stmt_fetch", "Connection.handle_stmt_reset", "Connection.handle_stmt_close", "Connection.handle_stmt_send_long_data", "Connection.command_phase (one iteration)")))
     out.append("end Mimic.Extracted.HandlersCode")
     return "\n".join(out) + "\n"
 
